@@ -100,6 +100,7 @@ prop("C03", "A full sync reproduces the source snapshot's dataset on the target"
      "a case = dataset (1-12 keys over DBs 0,1,2,5,15; every type; expiries none / >=1h past / >=1h future; IDLE/FREQ) x per-value RDB encoding (raw/int/LZF strings; linked list, ziplist, quicklist v1, quicklist v2 plain+packed; table/intset 16-32-64/listpack sets; "
      "skiplist v1 ascii/v2 binary, ziplist, listpack sorted sets incl. +-inf; zipmap (free bytes, len byte 254, 5-byte lengths), ziplist, listpack, table hashes; stream listpacks v1-v4 with SAMEFIELDS/own fields, deleted entries, groups, PELs, empty stream; integer boundary values of every width and sign; "
      "ziplists with zllen 65535; LZF-compressed blobs) x container (versions 6-13, AUX, RESIZEDB, SLOT_INFO, EXPIRETIME seconds/ms, checksum or 0) x replay configuration (restore on/off, MaxProtoBulkLen 40..512MiB, parallel 1-8, pipe size 1-1024, injective db map, split threshold 48B..16MiB via hook, target version 4-8, reader fragmentation). "
+     "One configuration in four uses the bidirectional snapshot path (every key in its own MULTI / marker / value / EXEC; its own handling of the key-exists policy and of split values). "
      "On the RESTORE path the target optionally refuses the payload of every 1st/2nd/3rd snapshot key with ERR Bad data format (after the BUSYKEY and footer checks, as restoreCommand does); the tool then falls back to native commands, or stops, in which case nothing is judged. "
      "non-trivial (measured) = distinct case in which both replay paths were taken (>=1 RESTORE accepted and >=1 native expansion command executed) and a compact encoding held a negative or >=24-bit integer. "
      "Oracle: (1) every RESTORE payload == type byte + the writer's serialization of that key + footer(version<=13, CRC64 by ref/crc64); (2) final keyspace of the double == dataset under the db map (type, list order, members, bit-exact scores, fields, stream entries/ids/last-id/entries-added/max-deleted/groups/PELs), no extra keys; (3) |target expiry - source expiry| <= 60 s, past expiries gone or expiring within 60 s.",
@@ -138,7 +139,9 @@ prop("C10", "Filters pass exactly the configured set of commands, keys, slots an
      "filter configuration = 0-6 slot ranges in white and/or black list in any order (single slots, wide ranges that contain others, overlapping, adjacent, reversed l>r ranges that must be ignored), prefix white/black lists (ASCII and multi-byte UTF-8 prefixes, prefixes of the reserved names), db blacklist, command blacklist in any letter case. "
      "Pure layer: one case = configuration x one command drawn from the reference key-position table (~95 commands: single-key, first/last/step, numkeys with and without destination) with 1-4 binary / brace-heavy / reserved-looking keys x db; compared: FilterCmd, FilterDb, FilterKey, FilterSlot, FilterCmdKey (decision and projected arguments). "
      "End-to-end layer: one case = configuration x stream of 1-12 such commands over several dbs through the real RedisOutput (incremental path) x snapshot of 1-10 string keys (snapshot path, RESTORE and expansion). "
+     "One configuration in four uses the bidirectional snapshot path (every key in its own MULTI / marker / value / EXEC; its own handling of the key-exists policy and of split values). "
      "On the RESTORE path the target optionally refuses the payload of every 1st/2nd/3rd snapshot key with ERR Bad data format (after the BUSYKEY and footer checks, as restoreCommand does); the tool then falls back to native commands, or stops, in which case nothing is judged. "
+     "One configuration in four uses the bidirectional snapshot path (every key in its own MULTI / marker / value / EXEC; its own handling of the key-exists policy and of split values). "
      "non-trivial = distinct case with a multi-key command of mixed acceptance, or any key decision under overlapping/nested ranges (pure); every end-to-end case. "
      "Oracle: ref/filtermodel (union of ranges over ref/hashslot, byte-prefix rules, reserved namespaces redis-gunyu-checkpoint*, /redis-gunyu*, redis-gunyu-bisync*, DEL/UNLINK/MSET projection keeping order and values, any other command with a rejected key withheld).",
      [{"pkg": "c10", "test": "TestC10Pure",
